@@ -271,6 +271,11 @@ func scenC09(w *vsim.World, spec *vsim.Spec) {
 	if spec.Tier == "thorough" {
 		mean = []int{25, 80, 200}[w.Choose("mean", 3)]
 	}
+	hotFileProfile = w.Choose("profile", 3) == 2
+	defer func() { hotFileProfile = false }()
+	if hotFileProfile {
+		w.Probe("hot-file-profile")
+	}
 	ops := genOps(w, "w", ns, mean, r.blk, true)
 	// make sure every run ends with saves: one while faults may still flow, one after they stopped
 	x := &executor{w: w, fs: r.fs, m: r.m, tag: "w", blk: r.blk}
